@@ -358,9 +358,19 @@ func (cl *Client) pickConn() (*Conn, error) {
 const roundTripAttempts = 4
 
 func (cl *Client) RoundTrip(_ *fasthttp.HostClient, req *fasthttp.Request, res *fasthttp.Response) (retry bool, err error) {
+	streamed := req.IsBodyStream()
+
 	for attempt := 0; ; attempt++ {
 		err = cl.roundTripOnce(req, res)
 		if err == nil || !retryable(err) {
+			return false, err
+		}
+
+		// A connection that had started on a streamed body closed the reader
+		// when it gave the request up, a GOAWAY that disclaims the stream
+		// included. What is left is a request with no body: it cannot go out
+		// again, here or through fasthttp's own retry.
+		if streamed && !req.IsBodyStream() {
 			return false, err
 		}
 
